@@ -12,6 +12,7 @@ Oracle: identity (bytes), equality of fitted state, equality of repeated calls.
 from __future__ import annotations
 
 import copy
+import warnings
 
 import numpy as np
 
@@ -484,6 +485,20 @@ def _hyper(est):
     return out
 
 
+class _ArrayHolder:
+    """Not an ndarray, but hands out its own buffer through the array protocol (as data frames and tensors do)."""
+
+    def __init__(self, a):
+        self._a = a
+        self.shape = a.shape
+
+    def __array__(self, dtype=None, copy=None):
+        return self._a if dtype is None else self._a.astype(dtype, copy=False)
+
+    def __len__(self):
+        return len(self._a)
+
+
 def _run_all(sc, a):
     """Full call chain of a scenario on the caller's arguments a."""
     if "call" in sc:
@@ -534,6 +549,32 @@ def run(case, j):
             raise
     changed = rt.diff_snapshot(before, Av)
     j.ok("caller arrays byte-identical after the call chain", not changed, {"modified": changed, "layout": lay, "readonly": ro, "dtype": dt}, _known_purity(name, None) if changed else None)
+
+    # ---- (a') array-likes that expose memory without being ndarrays (a memoryview, an object with __array__ such as
+    #      a data frame or a tensor): validation wraps them without copying, so "the caller's data" is their memory
+    kinds_ = ("memoryview", "array_protocol")
+    hk = kinds_[case["seed"] % 2]
+    under = []
+
+    def hold(x):
+        if isinstance(x, np.ndarray) and x.ndim == 2 and x.dtype == np.float64:
+            b = np.array(x, order="C", copy=True)
+            under.append((b, b.tobytes()))
+            return memoryview(b) if hk == "memoryview" else _ArrayHolder(b)
+        return x
+
+    Ah = rt.map_arrays(A, hold)
+    if under:
+        try:
+            with warnings.catch_warnings():
+                warnings.simplefilter("ignore")
+                _run_all(sc, Ah)
+        except Exception:  # noqa: BLE001 - the entry point does not take such array-likes (documented for arrays): not a verdict
+            j.note("array_like_holders_not_accepted_by_the_entry_point")
+        else:
+            bad = [i for i, (b, raw) in enumerate(under) if b.tobytes() != raw]
+            j.ok("memory behind array-like arguments (memoryview / __array__ holder) byte-identical after the call chain", not bad, {"holder": hk, "modified_arguments": bad})
+            j.note("call_chains_on_array_like_holders")
 
     if "call" in sc:
         # ---- (d) repetition
